@@ -7,17 +7,18 @@ import models
 PROPERTY = "C18"
 LEVEL = "fault_enumeration"
 RULE = (
-    "cases = (stack of 1-4 layers over sync / thread-pool / manual bases; 2-4 submissions; one or two injected faults chosen from every "
-    "user-code call site present in the stack - the submitted callable (at invocation k), map / error / flat_map function (for one chosen "
-    "submission only), the poll function (at call k), the cancel function, a retry policy's should_retry or sleep_time (at attempt k), "
-    "the throttle count callable (at call k), done-callbacks (first of several) - optionally combined with concurrent cancels; a probe "
-    "submission after the faults; tape; both clock modes). Enumerated: each fault site x layer with every single pre-emption placement of "
-    "a small program. Oracle: every future not touched by a fault has the outcome of the sequential reference model; a faulted future "
-    "fails with exactly the injected exception object (or the fault is logged where the API says so: callbacks, policies, cancel "
-    "function, count callable); the probe completes with its model outcome; no thread created by the stack ended with an exception; no "
-    "library-internal exception (InvalidStateError, KeyError, AssertionError, AttributeError, TypeError...) escapes a Future method, a "
-    "worker thread, or the standard library's callback invoker; every registered callback still runs exactly once. Non-trivial = a fault "
-    "with at least one other submission in flight. Distinct = digest of the case."
+    "cases = (stack of 1-4 layers over sync / thread-pool / manual bases; 2-4 submissions; one or two injected faults chosen from "
+    "every user-code call site present in the stack - the submitted callable (at invocation k), map / error / flat_map function (for "
+    "one chosen submission only), the poll function (at call k), the cancel function (also over a result object whose str() raises), "
+    "a retry policy's should_retry or sleep_time (at attempt k), the throttle count callable (at call k), done-callbacks (first of "
+    "several) - optionally combined with concurrent cancels; a probe submission after the faults; tape; both clock modes). "
+    "Enumerated: each fault site x layer with every single pre-emption placement of a small program. Oracle: every future not touched "
+    "by a fault has the outcome of the sequential reference model; a faulted future fails with exactly the injected exception object "
+    "(or the fault is logged where the API says so: callbacks, policies, cancel function, count callable); the probe completes with "
+    "its model outcome; no thread created by the stack ended with an exception; no library-internal exception (InvalidStateError, "
+    "KeyError, AssertionError, AttributeError, TypeError...) escapes a Future method, a worker thread, or the standard library's "
+    "callback invoker; every registered callback still runs exactly once. Non-trivial = a fault with at least one other submission in "
+    "flight. Distinct = digest of the case."
 )
 ASSUMPTIONS = ["policy methods / count callables returning wrong TYPES are contract violations, not faults, and are not generated",
                "a directly-invoked callback's own exception reaching its registrant is allowed (documented by the suite)"]
